@@ -109,6 +109,8 @@ def gen_cases(ctx: Ctx):
         clm = list(hostile.consistent_length_mutations(blob))
         if n == 0:
             clm += list(hostile.protection_descriptor_edits(blob))
+        if n in (0, 1, 4) or ctx.thorough:
+            clm += list(hostile.structural_mutations(blob))
         if not ctx.thorough and n > 0:
             muts = muts[:: (4 if n < 4 else 12)] + _pub_edits(blob)
         muts += clm if (ctx.thorough or n in (0, 1, 4)) else clm[:: 5]
